@@ -254,8 +254,8 @@ Definition to_dict_dur (total_us : Z) : option (list byte) :=
    Modelled grammar of the Decimal literal: [+-]? DIGITS ["." DIGITS] with at least one digit and
    at most 28 significant digits (Decimal's default precision); anything else is EOther = "outside
    the model" (Decimal also reads exponents, "Infinity", underscores ...).  int() truncates toward zero. *)
-Definition parse_duration (v : list byte) : result Z :=
-  let body := removelast v in
+(* the literal grammar shared by both variants: sign, integer digits, fraction digits *)
+Definition dec_tokens (body : list byte) : option (bool * list byte * list byte) :=
   let '(neg, r0) := match body with
                     | b :: r => if Byte.eqb b cMINUS then (true, r) else if Byte.eqb b cPLUS then (false, r) else (false, body)
                     | [] => (false, body)
@@ -265,10 +265,12 @@ Definition parse_duration (v : list byte) : result Z :=
                    | b :: r => if Byte.eqb b cDOT then span_digits r else ([], r1)
                    | [] => ([], r1)
                    end in
-  match r2, ip ++ fp with
-  | _ :: _, _ => Err EOther
-  | [], [] => Err EOther
-  | [], _ :: _ =>
+  if is_nil r2 && negb (is_nil (ip ++ fp)) then Some (neg, ip, fp) else None.
+
+Definition parse_duration (v : list byte) : result Z :=
+  match dec_tokens (removelast v) with
+  | None => Err EOther
+  | Some (neg, ip, fp) =>
       let mag := dval ip * 10 ^ 6 + dval (firstn 6 (fp ++ repeat c0 6)) in
       timedelta_new 0 (if neg then - mag else mag)
   end.
@@ -422,20 +424,9 @@ Definition delta_to_json_pinned (total_us : Z) : list byte :=
    timedelta(seconds=f): f = ip + fr (modf); x = ip * 10**6 exactly; 1e6 * fr is ONE float
    multiplication, split again by modf; the remaining fraction is rounded half-to-even. *)
 Definition parse_duration_pinned (v : list byte) : result Z :=
-  let body := removelast v in
-  let '(neg, r0) := match body with
-                    | b :: r => if Byte.eqb b cMINUS then (true, r) else if Byte.eqb b cPLUS then (false, r) else (false, body)
-                    | [] => (false, body)
-                    end in
-  let '(ip, r1) := span_digits r0 in
-  let '(fp, r2) := match r1 with
-                   | b :: r => if Byte.eqb b cDOT then span_digits r else ([], r1)
-                   | [] => ([], r1)
-                   end in
-  match r2, ip ++ fp with
-  | _ :: _, _ => Err EOther
-  | [], [] => Err EOther
-  | [], _ :: _ =>
+  match dec_tokens (removelast v) with
+  | None => Err EOther
+  | Some (neg, ip, fp) =>
       let N := dval (ip ++ fp) in
       let f := rn (if neg then - N else N) (10 ^ Z.of_nat (length fp)) in
       let i1 := fl_trunc f in
